@@ -28,7 +28,7 @@ def _c25():
                     tiers=tiers, **fast))
     qs.append(Q('byte_splitter_8B_size_t_ub', 'c25_bits.cpp', defs={'Q_BYTE_SPLITTER': None, 'SRC_BYTES': 8, 'UINT_T': 'size_t', 'NCUTS': 1}, **ub))
     for it, tiers in (('size_t', ('quick', 'thorough')), ('unsigned', ('quick', 'thorough')), ('uint16_t', ('thorough',)), ('int', ('thorough',)),
-                      ('long', ('thorough',)), ('short', ('thorough',)), ('"unsigned long long"', ('thorough',))):
+                      ('long', ('thorough',)), ('short', ('thorough',)), ('unsigned long long', ('thorough',))):
         nm = it.strip('"').replace(' ', '_')
         qs.append(Q('number_splitter_' + nm, 'c25_bits.cpp', defs={'Q_NUMBER_SPLITTER': None, 'INT_T': it, 'NCUTS': 3}, tiers=tiers, **fast))
     qs.append(Q('number_splitter_size_t_ub', 'c25_bits.cpp', defs={'Q_NUMBER_SPLITTER': None, 'INT_T': 'size_t', 'NCUTS': 1}, **ub))
@@ -118,10 +118,8 @@ def _c22():
         qs.append(Q(name, 'c22b_monitors.cpp', mode='coro', T=T, K=K, defs={'MON_KIND': kind, 'NOPS': nops, 'NNODES': nn, 'VERIF_T': T},
                     spin={'do_lock|do_unlock|pool_monitor': spinU}, unwind=unwind, timeout=timeout, tiers=tiers, validate=6, coro_style='guard'))
     m('pool_monitor_T2_K5_n1', 0, 2, 5, 1)
-    m('pool_monitor_T2_K6_n2', 0, 2, 6, 2, unwind=5, tiers=('thorough',), timeout=3000)
     m('pool_monitor_T2_K5_n2_1node', 0, 2, 5, 2, nn=1, unwind=5, tiers=('thorough',), timeout=3000)
     m('pool_monitor_T3_K5_n1', 0, 3, 5, 1, tiers=('thorough',), timeout=3000)
-    m('pool_monitor_T2_K8_n2', 0, 2, 8, 2, tiers=('thorough',), timeout=3000, unwind=5)
     m('injecting_monitor_T2_K5_n2', 1, 2, 5, 2, unwind=5)
     m('lock_array_pow2_T2_K5_n2', 2, 2, 5, 2, unwind=5)
     m('lock_array_mod3_T2_K5_n2', 3, 2, 5, 2, unwind=5)
@@ -151,14 +149,9 @@ def _c07():
     q('vyukov_sc_front_cap2_T2_n2_K4', 2, 4, 2, 2, 1, sc=1, tiers=('thorough',), timeout=3000)
     q('vyukov_sc_front_cap2_T2_n1_K5', 2, 5, 1, 2, 1, sc=1)
     q('vyukov_sc_front_cap2_T3_n1_K4', 3, 4, 1, 2, 1, sc=1)
-    q('vyukov_intrusive_cap2_T2_n2_K4', 2, 4, 2, 2, 1, intr=1, tiers=('thorough',), timeout=3000)
     q('vyukov_intrusive_cap2_T3_n1_K4', 3, 4, 1, 2, 1, intr=1)
     q('vyukov_cleaner_cap2_T2_n2_K4', 2, 4, 2, 2, 2, cl=1, tiers=('thorough',), timeout=3000)
     q('vyukov_cleaner_cap2_T3_n1_K4', 3, 4, 1, 2, 2, cl=1)
-    q('vyukov_static_cap4_T2_n2_K5', 2, 5, 2, 4, 5, tiers=('thorough',), timeout=3000)
-    q('vyukov_static_cap2_T2_n2_K6', 2, 6, 2, 2, 3, tiers=('thorough',), timeout=3000)
-    q('vyukov_dynamic_cap4_T3_n1_K5', 3, 5, 1, 4, 3, dyn=1, tiers=('thorough',), timeout=3000)
-    q('vyukov_static_cap8_T2_n2_K4', 2, 4, 2, 8, 9, tiers=('thorough',), timeout=3000)
     return qs
 CHECKS['C07'] = {
     'queries': _c07(), 'level': 'model_checking',
@@ -195,7 +188,6 @@ def _c12():
     seq_v('void_seq_static_cap32_n3', 32, 3, dyn=0)
     seq_v('void_seq_static_cap32_n5', 32, 5, dyn=0, tiers=('thorough',), timeout=3000)
     seq_v('void_seq_dynamic_cap32_n5_strict', 32, 5, dyn=1, strict=1)
-    seq_v('void_seq_dynamic_cap64_n6', 64, 6, dyn=1, tiers=('thorough',), timeout=3000)
     seq_v('void_seq_dynamic_cap32_n8', 32, 8, dyn=1, tiers=('thorough',), timeout=3000)
     coro_t('typed_coro_cap4_p1c1_K4', 4, 1, 1, 4, 3)
     coro_t('typed_coro_cap4_p2c1_K5', 4, 2, 1, 5, 3)
@@ -204,7 +196,6 @@ def _c12():
     coro_t('typed_coro_cap4_p2c2_K8', 4, 2, 2, 8, 3, tiers=('thorough',), timeout=3000)
     coro_v('void_coro_cap32_p1c1_K4', 32, 1, 1, 4)
     coro_v('void_coro_cap32_p2c1_K5', 32, 2, 1, 5, tiers=('thorough',), timeout=3000)
-    coro_v('void_coro_cap32_p2c2_K7', 32, 2, 2, 7, tiers=('thorough',), timeout=3000)
     return qs
 CHECKS['C12'] = {
     'queries': _c12(), 'level': 'model_checking',
@@ -234,11 +225,6 @@ def _c21():
         q('freelist_T2_n2_ops2_K4_script%d' % sc, 0, 2, 4, 2, 2, script=sc, tiers=('quick', 'thorough') if sc in (0, 1, 4, 6, 9) else ('thorough',))
     for sc in (0, 1, 4, 6, 9):
         q('tagged_T2_n2_ops2_K4_script%d' % sc, 1, 2, 4, 2, 2, script=sc, tiers=('quick', 'thorough') if sc in (0, 6) else ('thorough',))
-    q('freelist_T2_n2_ops2_K4', 0, 2, 4, 2, 2, tiers=('thorough',), timeout=3000)
-    q('freelist_T2_n2_ops2_K6_script6', 0, 2, 6, 2, 2, U=5, script=6, tiers=('thorough',), timeout=3000)
-    q('freelist_T3_n2_ops1_K4', 0, 3, 4, 2, 1, tiers=('thorough',), timeout=3000)
-    q('freelist_T2_n3_ops2_K4', 0, 2, 4, 3, 2, tiers=('thorough',), timeout=3000)
-    q('cached_tagged_T2_n2_ops1_K4', 3, 2, 4, 2, 1, unwind_fn={'h_check': 6, r'CachedFreeList.*3getEv': 6}, tiers=('thorough',), timeout=3000)
     return qs
 CHECKS['C21'] = {
     'queries': _c21(), 'level': 'model_checking',
@@ -258,15 +244,9 @@ def _c24():
                     spin={'do_alloc|do_free': U}, unwind=max(U, cap, nops, T * maxhold) + 2, timeout=timeout, tiers=tiers, validate=6, coro_style=style))
     q('vyukov_pool_T2_n1_K4', 0, 2, 4, 1)
     q('lazy_pool_T2_n1_K4', 1, 2, 4, 1)
-    q('bounded_pool_T2_n1_K4', 2, 2, 4, 1, maxhold=1, tiers=('thorough',), timeout=3000)
-    q('bounded_pool_T2_n1_K3', 2, 2, 3, 1, maxhold=1)
+    q('bounded_pool_T2_n1_K3', 2, 2, 3, 1, maxhold=1, tiers=('thorough',), timeout=3000)
     q('pool_allocator_T2_n1_K4', 3, 2, 4, 1)
     q('vyukov_pool_T3_n1_K4', 0, 3, 4, 1, maxhold=1, tiers=('thorough',), timeout=3000)
-    q('vyukov_pool_T2_n2_K4', 0, 2, 4, 2, tiers=('thorough',), timeout=3000)
-    q('lazy_pool_T2_n2_K4', 1, 2, 4, 2, tiers=('thorough',), timeout=3000)
-    q('bounded_pool_T2_n2_K4', 2, 2, 4, 2, maxhold=1, tiers=('thorough',), timeout=3000)
-    q('bounded_pool_T3_n1_K4_cap4', 2, 3, 4, 1, cap=4, maxhold=1, tiers=('thorough',), timeout=3000)
-    q('vyukov_pool_T2_n1_K6', 0, 2, 6, 1, tiers=('thorough',), timeout=3000)
     return qs
 CHECKS['C24'] = {
     'queries': _c24(), 'level': 'model_checking',
@@ -289,11 +269,6 @@ def _c09():
     q('treiber_intrusive_T2_n1_K4', 2, 4, 1, intr=1)
     q('treiber_value_T2_n1_K5_ic', 2, 5, 1, ic=1)
     q('treiber_value_T2_n1_K6_ic', 2, 6, 1, ic=1, tiers=('thorough',), timeout=3000)
-    q('treiber_value_T3_n1_K4', 3, 4, 1, pre=1, tiers=('thorough',), timeout=3000)
-    q('treiber_value_T2_n2_K4', 2, 4, 2, pre=1, tiers=('thorough',), timeout=3000)
-    q('treiber_intrusive_T2_n2_K5', 2, 5, 2, pre=1, intr=1, tiers=('thorough',), timeout=3000)
-    q('treiber_value_T2_n2_K6', 2, 6, 2, pre=1, tiers=('thorough',), timeout=3000)
-    q('treiber_value_T3_n1_K6', 3, 6, 1, pre=1, tiers=('thorough',), timeout=3000)
     return qs
 CHECKS['C09'] = {
     'queries': _c09(), 'level': 'model_checking',
@@ -313,12 +288,8 @@ def _c06():
                     cxxflags=['-fno-access-control'], object_bits=12, coro_style=style, atomic_fn='hp_env_model_pass', abort_fn=HP_ABORT, mem_gb=(16 if 'quick' in tiers else 40)))
     q('rwqueue_T2_n1_K4', 4, 2, 4, 1)
     q('rwqueue_T2_n1_K6', 4, 2, 6, 1)
-    q('rwqueue_T2_n2_K5', 4, 2, 5, 2, pre=1, tiers=('thorough',), timeout=3000)
-    q('rwqueue_T3_n1_K5', 4, 3, 5, 1, pre=1, tiers=('thorough',), timeout=3000)
     q('msqueue_T2_n1_K4', 0, 2, 4, 1, pre=1, U=2, tiers=('thorough',), timeout=3000)
     q('moirqueue_T2_n1_K4', 1, 2, 4, 1, pre=1, U=2, tiers=('thorough',), timeout=3000)
-    q('basketqueue_T2_n1_K4', 2, 2, 4, 1, pre=1, U=2, tiers=('thorough',), timeout=3000)
-    q('msqueue_T2_n1_K4_ic', 0, 2, 4, 1, pre=1, U=2, ic=1, tiers=('thorough',), timeout=3000)
     return qs
 CHECKS['C06'] = {
     'queries': _c06(), 'level': 'model_checking',
@@ -339,15 +310,10 @@ def _c11():
         qs.append(Q(name, 'c11_pqueue.cpp', mode='coro', T=T, K=K, defs={'Q_CORO': None, 'PQ_MODE': mode, 'HEAPSZ': heapsz, 'NOPS': nops, 'PRIOMAX': 3, 'VERIF_T': T},
                     spin={'do_push|do_pop|spin_lock': 2}, unwind=max(U, heapsz, 8) + 2, unwind_fn={'linearizable': 26}, timeout=timeout, tiers=tiers, validate=6, coro_style=style))
     seq('mspq_seq_cap3_n5', 4, 5)
-    seq('mspq_seq_cap7_n6', 8, 6, tiers=('thorough',), timeout=3000)
     seq('mspq_seq_cap1_n6', 2, 6)
     co('mspq_push_push_T2_n1_K4', 0, 2, 4, 1, tiers=('thorough',), timeout=3000)
     co('mspq_pop_pop_T2_n1_K4', 1, 2, 4, 1, tiers=('thorough',), timeout=3000)
     co('mspq_mixed_T2_n1_K4', 2, 2, 4, 1, tiers=('thorough',), timeout=3000)
-    co('mspq_push_push_T2_n1_K4_guard', 0, 2, 4, 1, tiers=('thorough',), timeout=3000, style='guard')
-    co('mspq_push_push_T2_n1_K6_cap7', 0, 2, 6, 1, heapsz=8, tiers=('thorough',), timeout=3000)
-    co('mspq_mixed_T2_n2_K5', 2, 2, 5, 2, tiers=('thorough',), timeout=3000)
-    co('mspq_mixed_T3_n1_K5', 2, 3, 5, 1, tiers=('thorough',), timeout=3000)
     return qs
 CHECKS['C11'] = {
     'queries': _c11(), 'level': 'model_checking',
@@ -374,10 +340,6 @@ def _c04():
     q('gpi_reader_vs_2updaters_T3_K5', 0, 3, 5, tiers=('thorough',), timeout=3000)
     q('gpi_reader_vs_2updaters_T3_K4', 0, 3, 4)
     q('gpb_reader_vs_updater_T2_K4_cap1', 1, 2, 4, bufcap=1, tiers=('thorough',), timeout=3000)
-    q('gpb_reader_vs_updater_T2_K6_u2_cap1', 1, 2, 6, nupd=2, nread=1, bufcap=1, tiers=('thorough',), timeout=3000)
-    q('gpi_reader_vs_updater_T2_K8_u2r2', 0, 2, 8, nupd=2, nread=2, tiers=('thorough',), timeout=3000)
-    q('gpb_reader_vs_updater_T2_K8_u3_cap2', 1, 2, 8, nupd=3, nread=2, bufcap=2, tiers=('thorough',), timeout=3000)
-    q('gpi_2readers_vs_updater_T3_K7', 0, 3, 7, nupd=2, third_reader=1, tiers=('thorough',), timeout=3000)
     return qs
 CHECKS['C04'] = {
     'queries': _c04(), 'level': 'model_checking',
